@@ -20,6 +20,7 @@ CONSTANTS
   FactoryBuildsTwice = FALSE
   FirstInitErrorSwallowed = FALSE
   RepollAfterComplete = FALSE
+  AndThenFactorySequential = FALSE
 SPECIFICATION Spec
 INVARIANTS
   I_C11_ResultIsEval I_C11_SecondOnlyAfterFirstOk I_C11_MapperOnceOnMatchingVariant I_C11_WrappersTransparent
